@@ -94,6 +94,15 @@ def alg_configs(tier):
                  cfg=cfg, timeout=3000, defs={'AlgWin': set(range(97, 97 + s[1])), 'MaxR': s[2], 'MaxC': s[3], 'AlgOp': s[0]}) for s in sizes]
 
 
+def text_configs(tier):
+    """Layer I for classes.py at text level (ImplClassText): writing a class down and reading it back, every item order; model only."""
+    cfg = 'SPECIFICATION Spec\nINVARIANT RoundTrip\nCHECK_DEADLOCK FALSE\n'
+    meta = {92, 94, 91, 93, 45, 47, 36, 97, 110}
+    sizes = [(meta, 2, 2)] if tier == 'quick' else [(meta | {44, 46}, 2, 2), ({45, 47, 92, 93, 97}, 3, 3)]
+    return [dict(name='ImplClassText window=%d ranges<=%d chars<=%d' % (len(w), r, c), module='ImplClassText', model_only=True,
+                 invariants=['RoundTrip'], workers=8, cfg=cfg, timeout=3000, defs={'TxtWin': set(w), 'MaxR': r, 'MaxC': c}) for w, r, c in sizes]
+
+
 def hash_seeds(tier, seed):
     return sorted({0, 1, 2, seed % (2 ** 32)}) if tier == 'quick' else list(range(16))
 
@@ -102,7 +111,7 @@ def generic(prop, facets, rule, configs_fn, args_tier=None):
     tier, seed = tier_and_seed(args_tier)
     t0 = time.time()
     seeds = hash_seeds(tier, seed)
-    res = run_generated((alg_configs(tier) if prop == 'C07' else []) + configs_fn(tier, seed) + random_class_configs(tier, seed),
+    res = run_generated((alg_configs(tier) if prop == 'C07' else text_configs(tier)) + configs_fn(tier, seed) + random_class_configs(tier, seed),
                         'harness.judge_class.judge', {'prop': prop, 'facets': sorted(facets)},
                         seeds=seeds, mode='all', batch=200)
     from . import checks_compose as CC
